@@ -23,7 +23,7 @@ type Case struct {
 	Stream string `json:"-"`
 	Gen    GenP   `json:"gen"`
 	Limit  int    `json:"limit"` // 0: default (64 KiB)
-	Mode   string `json:"mode"`  // "read", "conn-nil" (Buffer(nil, M)), "conn-buf" (Buffer(make([]byte,4), M)), "conn-cap" (Buffer(make([]byte,0,M), 0))
+	Mode   string `json:"mode"`  // "read", "conn-nil" (Buffer(nil, M)), "conn-buf" (Buffer(make([]byte,4), M)), "conn-cap" (Buffer(make([]byte,0,M), 0)), "conn-late" (Buffer(nil, M) called from OnRetry after a failed first attempt)
 	Chunk  int    `json:"chunk"` // 0 whole; k: k-byte reads; negative: one cut at -k
 	// EOFWithLast: the reader returns io.EOF together with the last bytes (as http bodies with a known length do)
 	EOFWithLast bool `json:"eof_with_last,omitempty"`
@@ -245,7 +245,7 @@ func maxOf(a []int) int {
 
 func run(cc c01.Case, mode string) ([]sse.Event, error, int) {
 	r := &c01.ChunkReader{Data: cc.Stream, Cuts: cc.Cuts, EOFWithLast: cc.EOFWithLast}
-	events, err := c01.RunWith(cc, r, mode == "conn-buf", mode == "conn-cap")
+	events, err := c01.RunWith(cc, r, mode == "conn-buf", mode == "conn-cap", mode == "conn-late")
 	return events, err, r.Pulled
 }
 
@@ -334,7 +334,7 @@ var Check = &sqrun.Check{ID: "C20", QuickBudget: 60, ThoroughBudget: 600,
 		if c.Thorough {
 			limits = append(limits, 9, 31, 32, 100, 257, 1000, 4095, 4096, 4097)
 		}
-		modes := []string{"read", "conn-nil", "conn-buf", "conn-cap"}
+		modes := []string{"read", "conn-nil", "conn-buf", "conn-cap", "conn-late"}
 		add := func(g GenP, limit int, chunks []int) {
 			for _, m := range modes {
 				for _, ch := range chunks {
@@ -421,7 +421,7 @@ var Check = &sqrun.Check{ID: "C20", QuickBudget: 60, ThoroughBudget: 600,
 		}
 		cov := ev.Coverage{"evaluations": cases.Load(), "distinct_nontrivial": nontriv.Load(), "exhaustive": true,
 			"samples": []any{list[0], list[len(list)/2], list[len(list)-1]},
-			"rule":    fmt.Sprintf("limits %v via ReadConfig.MaxEventSize, Connection.Buffer(nil, M), Connection.Buffer(make([]byte,4), M) and Connection.Buffer(make([]byte,0,M), 0), plus the default 64 KiB and an enlarged 100000; stream shapes (endless line, endless event, only blank lines (LF and CRLF), only comments, an event of size n first / in the middle / last / last without blank line / with CRLF, b blank lines before it, comment-only keep-alive chunks (LF and CRLF, one and two lines) between small events, many small events) with n swept over [M-4, M+4] (and around 4096 / 65536 for the default); chunkings whole, 1-byte, 3-byte, one cut at M-1 / M / M+1 (4096 / 4097 / 1000 for the long ones); each with io.EOF returned separately and together with the last bytes; for sse.Read (whole and byte-wise) also with the same iterator value ranged over twice more afterwards, which must not panic; all through a counting reader; plus 3000-chunk streams of keep-alives / blank lines / unknown fields / small events during which the call stack must stay as shallow as at the first Read. Every case is distinct by construction and non-trivial (each stream contains events or exceeds the limit).", limits)}
+			"rule":    fmt.Sprintf("limits %v via ReadConfig.MaxEventSize, Connection.Buffer(nil, M), Connection.Buffer(make([]byte,4), M) Connection.Buffer(make([]byte,0,M), 0) and Connection.Buffer(nil, M) called from OnRetry after a failed first attempt, plus the default 64 KiB and an enlarged 100000; stream shapes (endless line, endless event, only blank lines (LF and CRLF), only comments, an event of size n first / in the middle / last / last without blank line / with CRLF, b blank lines before it, comment-only keep-alive chunks (LF and CRLF, one and two lines) between small events, many small events) with n swept over [M-4, M+4] (and around 4096 / 65536 for the default); chunkings whole, 1-byte, 3-byte, one cut at M-1 / M / M+1 (4096 / 4097 / 1000 for the long ones); each with io.EOF returned separately and together with the last bytes; for sse.Read (whole and byte-wise) also with the same iterator value ranged over twice more afterwards, which must not panic; all through a counting reader; plus 3000-chunk streams of keep-alives / blank lines / unknown fields / small events during which the call stack must stay as shallow as at the first Read. Every case is distinct by construction and non-trivial (each stream contains events or exceeds the limit).", limits)}
 		return &sqrun.Outcome{Level: "exploration", Coverage: cov, Assumptions: []string{
 			"an event whose size (including the blank lines before it) equals or exceeds the limit may be reported as too long or delivered intact; it may never be delivered truncated",
 			"'the last completed event' is the end of the last block (blank lines + lines + terminating blank line) before the oversized one",
